@@ -271,7 +271,7 @@ func runSpec(l *Loaded, spec *CheckSpec, tier, only string, workers int, extra m
 		"wall_s":     round3(time.Since(t0).Seconds() + loadS),
 		"violations": nViol,
 		"coverage": map[string]interface{}{
-			"states": totalPaths, "transitions": totalDecs, "traces_validated_against_impl": 0,
+			"states": totalPaths, "transitions": totalDecs + totalPaths, "transitions_rule": "branch/scheduling/environment decisions taken plus one terminal step per explored path", "traces_validated_against_impl": 0,
 			"samples": allSamples, "functions_encoded": fl, "n_functions_encoded": len(fl), "harnesses": harnessReports,
 			"queries": totalQueries, "solver_time_s": round3(totalSolver), "solver": "z3 (one process per worker, check-sat-assuming over QF_BV definitions)",
 			"reach_labels": reachAll, "twin_violated": twinOK, "inconclusive_paths": inconclusive,
